@@ -17,6 +17,7 @@ pub struct Stats {
     pub gf2_only_sufficient: AtomicU64,
     pub batch_cases: AtomicU64,
     pub below_k: AtomicU64,
+    pub calls_with_duplicates: AtomicU64,
 }
 
 /// (binary rank, full rank, L) of the constraint matrix of the received set
@@ -176,7 +177,15 @@ pub fn run_case(ctx: &Ctx, gf: &Gf, c: &Case, replay: J, st: &Stats) {
         for &e in &chunk {
             have.insert(e);
         }
-        let pk: Vec<_> = chunk.iter().map(|&e| mk(e)).collect();
+        let mut pk: Vec<_> = chunk.iter().map(|&e| mk(e)).collect();
+        // one call in three also carries re-deliveries of symbols already received (in this call
+        // or earlier), placed last: the answer must still reflect the distinct set
+        if rng.chance(1, 3) {
+            for _ in 0..rng.range(1, 2) {
+                pk.push(mk(*rng.pick(&c.arrivals[..i])));
+            }
+            st.calls_with_duplicates.fetch_add(1, Relaxed);
+        }
         let ret = guarded(|| dec.decode(pk));
         let ret = match ret {
             Err(m) => {
@@ -285,6 +294,7 @@ pub fn run(ctx: &Ctx) -> i32 {
     ctx.cov("prefixes_below_K_asserted_None", J::i(st.below_k.load(Relaxed)));
     ctx.cov("decodable_at_exactly_K_symbols", J::i(st.decodable_at_exactly_k.load(Relaxed)));
     ctx.cov("gf2_only_attempt_sufficient_sets", J::i(st.gf2_only_sufficient.load(Relaxed)));
+    ctx.cov("decode_calls_that_also_carried_duplicates", J::i(st.calls_with_duplicates.load(Relaxed)));
     ctx.cov("hook_counters", J::obj(vec![("case3a_gf2_only_attempts", J::i(ev[2] - ev0[2])), ("case3a_gf2_only_success", J::i(ev[3] - ev0[3])), ("case3b_full_solve_attempts", J::i(ev[4] - ev0[4])), ("case3b_full_solve_success", J::i(ev[5] - ev0[5]))]));
     let q = ctx.args.ex("n").is_none();
     ctx.floor("truly_undecodable_prefixes_with_at_least_K_symbols", st.undecodable_ge_k.load(Relaxed), if q { 50 } else { 1 });
